@@ -325,6 +325,9 @@ func (w *world) scenarios(signed string) []scenario {
 	if cfg.Norm {
 		sc = append(sc, scenario{name: "tamper:verify-without-normalize-line-endings", certain: "nz", noNorm: true})
 	}
+	// an --intermediate-certs file that cannot be read ends the command: nothing is verified
+	sc = append(sc, scenario{name: "tamper:intermediate-unreadable-missing", certain: "nz", noInspect: true, inter: []string{filepath.Join(kdir, "no-such-intermediate.pem")}})
+	sc = append(sc, scenario{name: "tamper:intermediate-unreadable-directory", certain: "nz", noInspect: true, inter: []string{kdir}})
 	if cfg.hasInter() && !cfg.InterInLayout {
 		sc = append(sc, scenario{name: "tamper:intermediate-cert-not-passed", certain: "nz", noInter: true})
 		// the intermediates as bundle files: every certificate of a file counts, in any order,
